@@ -300,6 +300,13 @@ func objLines(o *Obj, ind string) []string {
 		case "typed":
 			val = fmt.Sprint(p.V.Int)
 			rules = append(rules, fmt.Sprintf("type: %q", p.V.Ref))
+		case "emptyarr":
+			val = "[]"
+		case "emptyobj":
+			val = "{}"
+		case "orrule":
+			val = fmt.Sprint(p.V.Int)
+			rules = append(rules, fmt.Sprintf("or: [%q, %q]", p.V.Str, p.V.Ref))
 		case "arrobj":
 			sub := objLines(p.V.Obj, ind+"    ")
 			lines = append(lines, key+"["+strings.Repeat("[", p.V.Wrap))
